@@ -2,7 +2,7 @@
    class-table model Sem/ClassModel.v of Inherit._patch (source pinned by Gen/ObjPin.v) over the C3 linearisation Py/Mro.v. *)
 From Coq Require Import List Bool String.
 Import ListNotations.
-Require Import Base Mro Show ClassModel ObjPin Inherit Interp ObjModel InheritHeap HeapPatchers HeapFrame HeapCheck.
+Require Import Base Mro Show ClassModel ObjPin Inherit Interp ObjModel InheritHeap HeapPatchers HeapFrame HeapBuild HeapCheck.
 Open Scope string_scope.
 
 Theorem C11_own : forall n t cls name owner m c,
@@ -70,6 +70,25 @@ Print Assumptions C11_patcher_markers_survive_definitions.
 Theorem C11_hypotheses_checkable : forall w, wwf_b w = true -> hier_ok_b w = true -> wwf w /\ hier_ok w (rank_of w).
 Proof. intros w A B. split; [apply wwf_b_sound; exact A|apply hier_ok_b_sound; exact B]. Qed.
 Print Assumptions C11_hypotheses_checkable.
+
+(* every world built from scratch by class statements satisfies wwf; what is left as a hypothesis is a computation about the class
+   list only: distinct names, and for every prefix of the list two facts about its C3 linearisations (Py/Mro.v, the validated model of
+   CPython's type.mro()): a linearisation starts with its class; everything in the linearisation of a base was defined earlier *)
+Theorem C11_built_worlds_wf : forall fuel patchers specs w,
+  prefixes_ok_b [] specs (spec_rank specs) = true -> define_all fuel (world0 patchers) specs = Some w -> wwf w.
+Proof. exact built_world_wwf_b. Qed.
+Print Assumptions C11_built_worlds_wf.
+Theorem C11_built_plain_method_unchanged : forall fuel0 fuel patchers specs w cls w1 res c o r,
+  prefixes_ok_b [] specs (spec_rank specs) = true -> define_all fuel0 (world0 patchers) specs = Some w -> hier_ok_b w = true ->
+  attr_of w c = Some (AFunc o) -> own_wrapper (w_heap w) o = Some r ->
+  getattr_n fuel w cls = Some (w1, res) ->
+  get_reg (w_heap w1) r = get_reg (w_heap w) r /\ attr_of w1 c = Some (AFunc o).
+Proof.
+  intros fuel0 fuel patchers specs w cls w1 res c o r Hp Hd Hh. apply (plain_method_registry_unchanged (rank_of w)).
+  - eapply built_world_wwf_b; eassumption.
+  - apply hier_ok_b_sound. exact Hh.
+Qed.
+Print Assumptions C11_built_plain_method_unchanged.
 
 (* non-vacuity: B1.m has('stdout') + pre 10, B2.m has('network') + pre 20, C(B1, B2).m marked inherit, D(B1) and E(B1) class-decorated
    (two Inherit objects holding B1's function): all worlds on the way satisfy the hypotheses; C enforces both, B1 is as it was *)
